@@ -36,7 +36,7 @@ func Verif_C17_DebCompression() {
 		_, _, _, _, err := createDataTarball(info)
 		v.Assert(err == nil, "deb-compression-enum-value-is-accepted")
 	}
-	s := v.NondetString("compression", v.Bound("C17.len", 5, 6))
+	s := v.NondetString("compression", v.Bound("C17.len", 5, 8))
 	info := verifC17Info()
 	info.Deb.Compression = s
 	_, _, _, _, err := createDataTarball(info)
